@@ -24,6 +24,7 @@ func init() {
 		c11Handshake(x)
 		c11Store(x)
 		c11Load(x)
+		c11Sources(x)
 		return nil
 	})
 }
@@ -78,7 +79,7 @@ func c11Callee(c *ast.CallExpr) string {
 
 func c11IsPkg(n string) bool {
 	switch n {
-	case "time", "reflect", "strings", "sort", "slices", "log", "tls", "x509", "errors", "fmt", "atomic":
+	case "time", "reflect", "strings", "sort", "slices", "log", "tls", "x509", "errors", "fmt", "atomic", "filepath":
 		return true
 	}
 	return false
@@ -455,6 +456,32 @@ func c11Watch(x *X) {
 	}
 	_ = lastCall
 	x.defStrList("watchLoopEvents", blockEvents(loop.Body))
+
+	// how the made certificates leave the loop: every send statement of the function, those that are a case of a
+	// select (a select with a default branch can drop a publication when the consumer is slow), whether the send
+	// hands the value made from the loaded material to the channel parameter, and goroutines started by watch
+	sends, inSelect, goStmts := 0, 0, 0
+	sendOK := false
+	ast.Inspect(fd.Body, func(n ast.Node) bool {
+		switch v := n.(type) {
+		case *ast.SendStmt:
+			sends++
+			if is(v.Chan, "ch") && is(v.Value, "certs") {
+				sendOK = true
+			}
+		case *ast.CommClause:
+			if _, ok := v.Comm.(*ast.SendStmt); ok {
+				inSelect++
+			}
+		case *ast.GoStmt:
+			goStmts++
+		}
+		return true
+	})
+	x.defNat("watchSends", uint64(sends))
+	x.defNat("watchSendsInSelect", uint64(inSelect))
+	x.defBool("watchSendsMadeCertsOnChannelParam", sendOK)
+	x.defNat("watchGoStmts", uint64(goStmts))
 }
 
 // ---- TLSConfig / GetCertificate closure / getCertificate --------------------------------------------------------
@@ -682,4 +709,84 @@ func c11Load(x *X) {
 	x.defNat("loadCertificatesSortCalls", uint64(nsort))
 	x.defBool("resultBuiltFromSortedFileNames", built)
 	x.defStrList("loadCertificatesSuffixes", suff)
+}
+
+// ---- the sources hand their loader to watch / the fetch of loadURL ----------------------------------------------
+
+func c11Sources(x *X) {
+	describe := func(recv string) []string {
+		fd := x.funcDecl(c11Dir, recv, "Certificates")
+		if fd == nil {
+			return []string{"?"}
+		}
+		fl := &c11Flow{x: x, env: map[string]ast.Expr{}}
+		var out []string
+		// locals first (path := makePath(...)), then the go statement
+		fl.walk(fd, func(n ast.Node) bool { return true })
+		ast.Inspect(fd.Body, func(n ast.Node) bool {
+			g, ok := n.(*ast.GoStmt)
+			if !ok || c11Callee(g.Call) != "watch" {
+				return true
+			}
+			for i, a := range g.Call.Args {
+				r := fl.resolve(a)
+				switch {
+				case i == 0:
+					if c, ok := r.(*ast.CallExpr); ok && c11Callee(c) == "make" {
+						out = append(out, "chan")
+					} else {
+						out = append(out, "?")
+					}
+				case c11IdentName(r) != "":
+					out = append(out, "func:"+c11IdentName(r))
+				default:
+					out = append(out, c11Describe(x, r))
+				}
+			}
+			return true
+		})
+		return out
+	}
+	x.defStrList("httpSourceWatchArgs", describe("HTTPSource"))
+	x.defStrList("pathSourceWatchArgs", describe("PathSource"))
+	// makePath: what it returns
+	var rets []string
+	if fd := x.funcDecl(c11Dir, "", "makePath"); fd != nil {
+		ast.Inspect(fd.Body, func(n ast.Node) bool {
+			if r, ok := n.(*ast.ReturnStmt); ok {
+				for _, e := range r.Results {
+					if c, ok := e.(*ast.CallExpr); ok {
+						rets = append(rets, "call:"+c11Callee(c))
+					} else {
+						rets = append(rets, "?")
+					}
+				}
+			}
+			return true
+		})
+	}
+	x.defStrList("makePathReturns", rets)
+	// loadURL: the status test of its fetch
+	var tests []string
+	if fd := x.funcDecl(c11Dir, "", "loadURL"); fd != nil {
+		ast.Inspect(fd.Body, func(n ast.Node) bool {
+			be, ok := n.(*ast.BinaryExpr)
+			if !ok {
+				return true
+			}
+			for k, side := range []ast.Expr{be.X, be.Y} {
+				if se, ok := side.(*ast.SelectorExpr); ok && se.Sel.Name == "StatusCode" {
+					other := be.Y
+					op := be.Op.String()
+					if k == 1 {
+						other = be.X
+						op = "(flipped) " + op
+					}
+					tests = append(tests, op+" "+x.src(c11ResolveConst(x, other)))
+				}
+			}
+			return true
+		})
+	}
+	x.defStrList("loadURLStatusTests", tests)
 }
